@@ -150,6 +150,11 @@ ResolvableStrOrList = InstanceOrListOf[ResolvableStr]
 ResolvableArnOrList = InstanceOrListOf[ResolvableArn]
 ResolvableIntOrList = InstanceOrListOf[ResolvableInt]
 ResolvableIPOrList = InstanceOrListOf[ResolvableIPNetwork]
+# an IP condition value that is not (yet) an address range is kept as text; tried in this order so that every valid
+# IPv4 or IPv6 range, alone or in a list, is stored as a network
+ResolvableIPOrStrOrList = Annotated[
+    Union[ResolvableIPOrList, InstanceOrListOf[Resolvable[str]]], Field(union_mode="left_to_right")
+]
 ResolvableBoolOrList = InstanceOrListOf[ResolvableBool]
 ResolvableBytesOrList = InstanceOrListOf[Binary]
 ResolvableDateOrList = InstanceOrListOf[ResolvableDate]
